@@ -23,3 +23,41 @@ CHECKS["C13"] = {
         {"variant": "plain", "engine": "serial", "mode": "conc", "procs_quick": 4, "procs_thorough": 8, "rounds_quick": 5000, "rounds_thorough": 50000},
     ],
 }
+
+CHECKS["C17"] = {
+    "src": "C17.cpp",
+    "level": "exploration",
+    "rule": "random call sequences (seq: 1 client x 5-18 calls; concurrent: 2-3 clients x 2-4 calls, plus a setup prefix) over names a..d, "
+            "types 0..2 and all 12 operations with identity/class/always/never predicates; every history is checked with a WGL search against a "
+            "result-directed reference map (predicate removal may remove any matching entry); objects handed out are re-validated after later "
+            "removals; ASan+UBSan on every run. Non-trivial: seq history with >= 4 calls, concurrent history in which calls of different clients "
+            "overlapped in (logical) time; distinct = hash of (calls, results, schedule signature).",
+    "assumptions": ["addType is generated only for names known to be present (effect on absent names unspecified)",
+                    "real-time order comes from an acq_rel logical clock; linearizability is not judged in TSan builds"],
+    "runs": [
+        {"variant": "asan", "engine": "off", "mode": "seq", "procs": 4, "rounds_quick": 6000, "rounds_thorough": 80000},
+        {"variant": "asan", "engine": "serial", "mode": "conc", "procs": 4, "rounds_quick": 2500, "rounds_thorough": 30000},
+        {"variant": "asan", "engine": "stress", "mode": "conc", "procs": 4, "rounds_quick": 2500, "rounds_thorough": 30000},
+        {"variant": "plain", "engine": "serial", "mode": "conc", "procs": 4, "rounds_quick": 8000, "rounds_thorough": 100000},
+        {"variant": "tsan", "engine": "stress", "mode": "conc", "procs_quick": 2, "procs_thorough": 4, "rounds_quick": 1500, "rounds_thorough": 15000},
+    ],
+}
+
+CHECKS["C19"] = {
+    "src": "C19.cpp",
+    "level": "exploration",
+    "rule": "rounds with one trigger thread (life cycles: direct, move-construct, move-construct chain with the moved-from objects destroyed in "
+            "either order, move-assign over a trigger of a third line, two triggers on one line) and 1-3 polling detectors on the line plus 0-1 on "
+            "another line; explicit, indexed (fresh indices per round, out-of-range probes) and declared lines (one scenario per process). "
+            "Non-trivial: some detector observed the line both untripped and tripped in the round; distinct = (life cycle, detector counts, "
+            "schedule signature / observed poll counts).",
+    "assumptions": ["before/after oracles use the acq_rel logical clock and are disabled in TSan builds (TSan judges the release/acquire pair there)",
+                    "the line of a trigger that is move-assigned over is not judged (unspecified)"],
+    "runs": [
+        {"variant": "asan", "engine": "stress", "procs": 4, "rounds_quick": 3000, "rounds_thorough": 40000},
+        {"variant": "plain", "engine": "serial", "procs": 4, "rounds_quick": 5000, "rounds_thorough": 100000},
+        {"variant": "tsan", "engine": "stress", "procs": 4, "rounds_quick": 1500, "rounds_thorough": 20000},
+        {"variant": "asan", "engine": "stress", "mode": "declared", "procs_quick": 12, "procs_thorough": 64, "rounds": 1},
+        {"variant": "plain", "engine": "serial", "mode": "declared", "procs_quick": 12, "procs_thorough": 64, "rounds": 1},
+    ],
+}
